@@ -706,14 +706,29 @@ fn validity<const N: usize, T: Elem>(buf: &CircularBuffer<N, T>, extra: &mut Str
     }
 }
 
-struct FaultIter<T: Elem>(std::vec::IntoIter<T>);
+/// The caller's iterator: every step is logged and may be made to panic. It
+/// is deliberately NOT fused: asked again after it has returned None, it
+/// produces one more (sentinel) element — `for_each` / `extend` never do that,
+/// so an implementation that calls `next` after the end shows up in the
+/// contents or in the events.
+struct FaultIter<T: Elem>(std::vec::IntoIter<T>, u8);
 impl<T: Elem> Iterator for FaultIter<T> {
     type Item = T;
     fn next(&mut self) -> Option<T> {
         let _p = pause();
         log("X".to_string());
         fault_check(K_NEXT);
-        self.0.next()
+        match self.0.next() {
+            Some(x) => Some(x),
+            None => {
+                self.1 += 1;
+                if self.1 == 2 {
+                    Some(T::mk(777777, 7))
+                } else {
+                    None
+                }
+            }
+        }
     }
 }
 
@@ -738,6 +753,8 @@ enum Step {
     CloneIt,
     NextSet(u64, u64),
     NextBackSet(u64, u64),
+    /// Iterator::nth(k) (script token t<k>)
+    Nth(usize),
 }
 fn p_script(s: &str) -> Vec<Step> {
     if s == "-" || s.is_empty() {
@@ -756,6 +773,8 @@ fn p_script(s: &str) -> Vec<Step> {
                 } else if let Some(r) = t.strip_prefix("sb=") {
                     let (i, v) = p_pair(r);
                     Step::NextBackSet(i, v)
+                } else if let Some(r) = t.strip_prefix('t') {
+                    Step::Nth(r.parse().unwrap())
                 } else {
                     panic!("harness: bad step {}", t)
                 }
@@ -913,7 +932,7 @@ fn run_op<const N: usize, T: Elem>(
         }
         "extend" => {
             let xs: Vec<T> = mk_all(toks[1]);
-            let it = FaultIter(xs.into_iter());
+            let it = FaultIter(xs.into_iter(), 0);
             meas(|| buf.extend(it));
             "unit".to_string()
         }
@@ -958,6 +977,14 @@ fn run_op<const N: usize, T: Elem>(
                 match st {
                     Step::NextBack | Step::NextBackSet(..) => {
                         let r = meas(|| d.next_back());
+                        out.push(match &r {
+                            None => "inone".to_string(),
+                            Some(e) => format!("i(-1@{})", e.show()),
+                        });
+                        keep(bag, r);
+                    }
+                    Step::Nth(k) => {
+                        let r = meas(|| d.nth(k));
                         out.push(match &r {
                             None => "inone".to_string(),
                             Some(e) => format!("i(-1@{})", e.show()),
@@ -1125,6 +1152,13 @@ fn run_op<const N: usize, T: Elem>(
                             Some(e) => format!("i({})", s_ref(buf, e)),
                         });
                     }
+                    Step::Nth(k) => {
+                        let r = meas(|| it.nth(k));
+                        out.push(match r {
+                            None => "inone".to_string(),
+                            Some(e) => format!("i({})", s_ref(buf, e)),
+                        });
+                    }
                     Step::NextBack | Step::NextBackSet(..) => {
                         let r = meas(|| it.next_back());
                         out.push(match r {
@@ -1180,6 +1214,7 @@ fn run_op<const N: usize, T: Elem>(
             for st in script {
                 let (r, w) = match st {
                     Step::Next | Step::CloneIt => (meas(|| it.next()), None),
+                    Step::Nth(k) => (meas(|| it.nth(k)), None),
                     Step::NextBack => (meas(|| it.next_back()), None),
                     Step::NextSet(i, v) => (meas(|| it.next()), Some((i, v))),
                     Step::NextBackSet(i, v) => (meas(|| it.next_back()), Some((i, v))),
@@ -1232,6 +1267,14 @@ fn run_op<const N: usize, T: Elem>(
                 match st {
                     Step::NextBack | Step::NextBackSet(..) => {
                         let r = meas(|| it.next_back());
+                        out.push(match &r {
+                            None => "inone".to_string(),
+                            Some(e) => format!("i(-1@{})", e.show()),
+                        });
+                        keep(bag, r);
+                    }
+                    Step::Nth(k) => {
+                        let r = meas(|| it.nth(k));
                         out.push(match &r {
                             None => "inone".to_string(),
                             Some(e) => format!("i(-1@{})", e.show()),
@@ -1323,7 +1366,7 @@ fn run_op<const N: usize, T: Elem>(
         }
         "from_iter" => {
             let xs: Vec<T> = mk_all(toks[1]);
-            let it = FaultIter(xs.into_iter());
+            let it = FaultIter(xs.into_iter(), 0);
             let nb: CircularBuffer<N, T> = meas(|| it.collect());
             let old = mem::replace(buf, nb);
             meas(|| drop(old));
